@@ -267,7 +267,11 @@ def run_auth(methods, cond, prov_kind, ch, ur=None):
                     reply = (514, [('line', 'Authentication required')]) if not accepted else (510, [('line', 'Unrecognized command')])
                 if reply == 'drop':
                     dropped = True
-                    ctl.lose(clean=False)
+                    # both ways a connection ends: reset (ConnectionLost) or an orderly close by Tor (ConnectionDone); which one is
+                    # fixed per (method list, step), so across the method lists every step sees both
+                    clean = (len(methods) + steps) % 2 == 0
+                    log.append('connection %s' % ('closed by Tor' if clean else 'lost'))
+                    ctl.lose(clean=clean)
                 else:
                     ctl.deliver(ctlcodec.encode_reply(*reply))
 
